@@ -5,6 +5,15 @@ BASE = json.load(open('/root/.vp/BASELINE.json'))['cmd']
 ALL = ["C%02d" % i for i in range(1, 21)]
 # id -> (engine, technique, level text, level note, design ref)
 CHECKS = {
+ "C04": ("tcp1", "explicit-state BFS with visited set: one real socket vs an adversarial but consistent peer, reference model of in-window offsets",
+         "A real interface + socket is driven to ESTABLISHED (as server and as client); from every reached state every segment with sequence number around the last ACK / around the highest advertised right edge, every small length and the window-filling lengths, FIN exactly at the end of the peer's stream, application reads of 1/2/all bytes and timer ticks are applied (depth <=6 quick, <=9 thorough; receive buffers 2,3,4,8,64 and 70000 with window scaling; peer ISNs 0, 2^31-3, 2^32-3). After each step: delivered bytes equal the peer's stream and never exceed the contiguous prefix of bytes that were sent inside the advertised window; every ACK number emitted is covered by that prefix (+1 only for an eligible FIN); Finished only after all bytes.",
+         "Trusted: independent segment builder/parser, reference model; safety only (acceptance of in-window data not demanded); eligibility judged against the highest right edge ever advertised (lenient).", "2/C04"),
+ "C17": ("tcp1", "explicit-state BFS with visited set over single events; every observed state change checked against the RFC 9293 table with guards over wire-observable quantities",
+         "From CLOSED, BFS over API calls (listen, connect, close, abort, send, recv), time advances (to poll_at, +10 s) and segments from flags x seq {rcv.nxt-1, rcv.nxt, rcv.nxt+1, edge-1, edge, far} x ack {iss, iss+1, snd.max-1, snd.max, snd.max+1, fin, fin+1, far} x len {0,1} (full alphabet depth <=5, reduced alphabet depth <=7 quick / 8 thorough). state() is read before and after the single ingress step and the egress pass that follows; each change must be an edge of the table in DESIGN.md Appendix A whose guard holds; TIME-WAIT must end exactly 10 s after entry/refresh.",
+         "Trusted: the transition table (lenient where RFC and statement leave room), observables read from the socket's own segments by the independent parser; delayed ACK off so they are current.", "2/C17 + Appendix A"),
+ "C07": ("wire_np", "bounded-exhaustive input enumeration over every checked packet view: new_checked then every applicable accessor, Repr::parse, pretty printer under catch_unwind",
+         "For 28 wire view types: all byte strings of length 0-2 (and 3-4 over boundary alphabets), a catalogue of 176 well-formed packets with every truncation, every single-byte corruption (boundary values quick, all 255 thorough), pairs of corruptions on length/type/offset positions, thorough: padded to 2048 and full 256x256 products of layout-selecting bytes. Each accepted input gets every read accessor that applies to its own message type, Repr::parse (default and ignored checksums), Display and PrettyPrinter; name/option iterators are drained under a step budget and a watchdog.",
+         "Trusted: per-type table of applicable accessors (reviewed against each module); inputs between 5 bytes and catalogue lengths exist only as catalogue derivatives.", "2/C07"),
  "C01": ("tcp2", "deviation-bounded exhaustive search over event schedules of two real TCP endpoints",
          "Two real smoltcp interfaces with one TCP socket each are joined by a network the explorer owns; every execution with at most k deviations (drop, duplicate, reorder, corrupt, timer-first/delay, reader stall) from the fault-free schedule is run to completion (k<=4 on the smallest configuration, k<=3 on twelve others in the quick tier; one more level in the thorough tier), over buffer sizes 8..128 KiB (window scaling), MTU 80..1500, none/Reno/CUBIC, Nagle/delayed-ACK on/off, IPv4/IPv6 and ISN pairs that wrap 2^31 and 2^32 mid-transfer. After every event the bytes handed to each application must be a prefix of what the peer wrote, and Finished requires all bytes.",
          "Trusted: the harness application model and network; bounds: k deviations, transfers of 20..3000 bytes, the listed configurations. ISNs are forced through the public random seed and verified on the wire.", "2/C01"),
